@@ -1034,7 +1034,7 @@ package otr3
 //@   modifies s.state
 //@   ensures [C12.state.nonnil.ensure] s.state != nil && (old(s.state) != nil ==> s.state == old(s.state)) && (old(s.state) == nil ==> isExp1(s.state))
 //@ func (*Conversation).continueSMP
-//@   requires c != nil
+//@   requires c != nil && encOK(c)
 //@   modifies anything
 //@   modifies smplog(c)
 //@   ensures [C12.continue.err] result1 != nil ==> result0 == nil
@@ -1155,8 +1155,10 @@ package otr3
 //@   ensures [C11.secret.init.set] (c.msgState == encrypted) ==> (c.smp.secret != nil && fresh(c.smp.secret))
 //@   ensures [C11.secret.init] (c.msgState == encrypted && typeisptr(c.theirKey, DSAPublicKey)) ==> val(c.smp.secret) == smpSecretTerm(fpterm(pubref(iref(c.ourCurrentKey))), fpterm(iref(c.theirKey)), old(bytesof(c.ssid)), old(bytes(mutualSecret)))
 
+//@ define encOK(c) = c.msgState == encrypted ==> (c.version != nil && c.ourCurrentKey != nil && c.theirKey != nil && payloadNonNil(c.theirKey))
 //@ func (smpStateWaitingForSecret).continueMessage1
-//@   requires c != nil && c.version != nil && c.ourCurrentKey != nil && c.theirKey != nil && payloadNonNil(c.theirKey)
+//@   requires c != nil && encOK(c)
+//@   ensures [C12.continue.msg] result2 == nil ==> result1 != nil
 //@   modifies c.smp.secret, c.smp.s2, smplog(c)
 //@   ensures [C11.secret.resp.set] c.msgState == encrypted ==> (c.smp.secret != nil && fresh(c.smp.secret))
 //@   ensures [C11.secret.resp] (c.msgState == encrypted && typeisptr(c.theirKey, DSAPublicKey)) ==> val(c.smp.secret) == smpSecretTerm(fpterm(iref(c.theirKey)), fpterm(pubref(iref(c.ourCurrentKey))), old(bytesof(c.ssid)), old(bytes(mutualSecret)))
@@ -1180,6 +1182,7 @@ package otr3
 //@ func (*Conversation).receiveTaggedPlaintext
 //@   preserves [C14.ctx.frame.receiveTaggedPlaintext] c.fragmentationContext.currentIndex, c.fragmentationContext.currentLen, c.fragmentationContext.frag
 //@   requires convOK(c)
+//@   requires [C13.wstag.present] bhas(bytes(message), bytes(whitespaceTagHeader))
 //@   modifies anything
 //@   modifies msglog(c), akeWiped(c.ake), akeKeysWiped(c.ake), kmcWiped(addr(c.ake.keys)), keysWiped(addr(c.ake.keys))
 //@ func (*Conversation).receivePlaintext
@@ -1251,8 +1254,12 @@ package otr3
 //@   ensures [C10.ake.keys.len.pkg] len(revealSigKeys.c) == 16 && len(signatureKeys.c) == 16 && len(revealSigKeys.m1) == 32 && len(revealSigKeys.m2) == 32 && len(signatureKeys.m1) == 32 && len(signatureKeys.m2) == 32
 //@   ensures nonglobal(revealSigKeys.c) && nonglobal(signatureKeys.c) && nonglobal(revealSigKeys.m1) && nonglobal(revealSigKeys.m2) && nonglobal(signatureKeys.m1) && nonglobal(signatureKeys.m2)
 
+//@ func convertToWhitespace
+//@   ensures [C20.wstag.fresh] fresh(result)
+//@ loop convertToWhitespace #0
+//@   invariant fresh(result)
 //@ func extractWhitespaceTag
-//@   requires len(message) >= 16
+//@   requires [C13.wstag.present] bhas(bytes(message), bytes(whitespaceTagHeader))
 //@   modifies elems(message)
 //@ loop extractWhitespaceTag #0
 //@   invariant nonglobal(currentData)
